@@ -4,4 +4,6 @@ CONSTANTS
   Extra = {x1}
   Kinds = {"ok"}
   CheckWaitpid = TRUE
+  ExecLocked = FALSE
+  MaskCritical = TRUE
 INVARIANTS NoUAF
